@@ -10,6 +10,7 @@ def q(xs):
 
 
 def run(ctx):
+    ctx.kats(["KAT_SM4", "KAT_Aead", "GF2Agree"], seed_const=("GF2Agree", "BigNatAgree"))
     out = os.path.join(ctx.scratch, "c04.ndjson")
     quick = ctx.tier == "quick"
     if quick:
